@@ -249,7 +249,10 @@ func ruleC08R3(w *World, r *Report) {
 	tk := w.TKAI()
 	psi := w.fn(w.Mem, "(*Parser).parseStatementInternal")
 	if psi == nil {
-		r.errorf("(*Parser).parseStatementInternal not found")
+		psi = w.fn(w.Mem, "(*Parser).parseStatement") // the dispatch written into parseStatement itself
+	}
+	if psi == nil {
+		r.errorf("(*Parser).parseStatementInternal / parseStatement not found")
 		return
 	}
 	routed := map[*ssa.Function]KSet{}
